@@ -1,7 +1,7 @@
 (* C07 — Compaction never changes what a read at or above the compaction revision sees.
    Property theorems only: each is closed by `exact <lemma>` and followed by Print Assumptions. *)
-From KB Require Import Base.Cases Model.Coder Model.CompactSys Model.C07Cases
-  Proofs.Coder Proofs.CompactSafe Proofs.CompactReads Proofs.CompactWf Proofs.CompactPass Proofs.CompactRanges Proofs.CompactBorders Proofs.CompactOracle.
+From KB Require Import Base.Cases Model.Coder Model.CompactSys Model.C07Cases Model.C07Valid
+  Proofs.Coder Proofs.CompactSafe Proofs.CompactReads Proofs.CompactWf Proofs.CompactPass Proofs.CompactRanges Proofs.CompactBorders Proofs.CompactRetry Proofs.CompactWriters Proofs.CompactOracle Proofs.CompactOracleW Proofs.CompactExpiry Proofs.CompactValid Proofs.CompactAudit.
 From Coq Require Import Sorted.
 Local Open Scope N_scope.
 
@@ -137,9 +137,75 @@ Theorem C07_write_keeps_wf : forall V n op,
 Proof. exact wop_step. Qed.
 Print Assumptions C07_write_keeps_wf.
 
+(* C07_pass for Backend.compact WITH concurrent writers: for every store whose records occupy distinct slots, every list of
+   ranges, every assignment of outcomes to the engine deletes and every interleaving of writers' commits between two deletes
+   (version records at fresh (key, revision) slots above R, one value per slot; index records replaced): every delete issued
+   satisfies C07_safe_remove's premise in the store of that moment, and after all ranges the store reads at every revision
+   >= R exactly like the ghost store that received the writers' commits and none of the deletes. (Every range starts from a
+   store whose records still occupy distinct slots, so its snapshot is strictly sorted and C07_pass's invariant carries over
+   from range to range.) *)
+Theorem C07_pass_all_ranges_writers : forall R V ranges oc,
+  let d := compact_all R 0 ranges (init_d V oc) in
+  store_ok V -> fresh_adds (flat_map fst oc) V ->
+  uniq_ver (V ++ flat_map fst oc) ->
+  (forall k r v, In (RVer k r v) (flat_map fst oc) -> R < r) ->
+  Forall (fun s => ds_safe s = true) (d_trace d) /\
+  veq R (d_store d) (d_ghost d) /\
+  store_ok (d_store d).
+Proof. exact compact_all_writers. Qed.
+Print Assumptions C07_pass_all_ranges_writers.
+
+(* the ghost flag recorded with every engine delete (ds_safe) is C07_safe_remove's premise, evaluated: `ds_safe s = true` in
+   C07_pass, C07_pass_all_ranges, C07_pass_all_ranges_writers and C07_pass_retry means that the delete satisfied the premise
+   in the store of that moment (the converse, premiseb_of, needs one value per slot) *)
+Theorem C07_premiseb_sound : forall R V x, premiseb R V x = true -> premise R V x.
+Proof. exact premiseb_sound. Qed.
+Print Assumptions C07_premiseb_sound.
+
+(* ... and the ghost store those theorems compare with is pinned: it is the initial store with the writers' commits of the
+   consumed entries of oc applied, in order - no commit is dropped from it, nothing else is in it *)
+Theorem C07_pass_all_ranges_writers_ghost : forall R V ranges oc,
+  let d := compact_all R 0 ranges (init_d V oc) in
+  exists consumed, flat_map fst oc = consumed ++ flat_map fst (d_oc d) /\ d_ghost d = apply_env consumed V.
+Proof. exact compact_all_ghost. Qed.
+Print Assumptions C07_pass_all_ranges_writers_ghost.
+
+(* the list specification of C07_list_count_unchanged is inhabited: on a strictly sorted store with one value per slot the
+   model's List (what the correspondence run compares with Backend.List) satisfies it *)
+Theorem C07_list_at_spec : forall V lo hi R,
+  StronglySorted rlt V -> uniq_ver V -> list_spec V lo hi R (list_at V lo hi R).
+Proof. exact list_at_spec. Qed.
+Print Assumptions C07_list_at_spec.
+
+(* ... and so List and Count (= the length of List) of the model read the same on any two such stores that read the same from R on *)
+Theorem C07_list_at_unchanged : forall R A B lo hi R',
+  StronglySorted rlt A -> uniq_ver A -> StronglySorted rlt B -> uniq_ver B -> veq R A B -> R <= R' ->
+  list_at A lo hi R' = list_at B lo hi R' /\ length (list_at A lo hi R') = length (list_at B lo hi R').
+Proof. exact list_at_unchanged. Qed.
+Print Assumptions C07_list_at_unchanged.
+
+(* C07_pass_retry: one iterator step (Next) of the scan fails and the worker runs again. The worker has handled the records
+   before the failing step - the truncated run is a prefix of a full run, the invariant of C07_pass holds after every
+   record - and the second run is a pass over what its range holds then. For every store, every ranges, every position n
+   of the failing step, every outcome of the engine deletes (no concurrent writers): every delete issued by either run is
+   safe, reads at every revision >= R are unchanged, nothing appears, nothing outside the ranges is touched, the relaxed
+   well-formedness is kept *)
+Theorem C07_pass_retry : forall R V ranges n (os : list outcome),
+  let d := compact_all_f R ranges n (init_d V (map (fun o => ([], o)) os)) in
+  store_ok V -> uniq_ver V ->
+  Forall (fun s => ds_safe s = true) (d_trace d) /\
+  veq R (d_store d) V /\
+  (forall y, In y (d_store d) -> In y V) /\
+  (forall y, In y V -> In y (d_store d) \/ touched ranges (rkey y)) /\
+  (wfd V -> wfd (d_store d)).
+Proof. exact compact_all_f_safe. Qed.
+Print Assumptions C07_pass_retry.
+
 (* ---------- the oracle is sound: on observations the model reproduces, it reports nothing ---------- *)
 
-(* Cases whose variants have no writers interleaved (the fault / die / compare-failure placements): if the
+(* Cases whose variants have no writers interleaved (the fault / die / compare-failure placements, a failed iterator step
+   with the worker's retry, engines reporting several partitions - whose workers together are one worker per range as
+   long as no key is split, which is C13's theorem on adjustPartitionsBorders): if the
    model reproduces the observations (c07_check: borders, delete calls, dump after the pass, reads, write
    round) and the case is valid (c07_valid: alphabet, non-empty keys, revisions > 0, relaxed well-formedness
    of the dump before, the variants' reads at revisions >= R, round revisions above everything stored),
@@ -149,6 +215,34 @@ Print Assumptions C07_write_keeps_wf.
 Theorem C07_oracle_sound : forall c, c07_valid c -> c07_check c = true -> c07_oracle c = None.
 Proof. exact c07_oracle_sound_seq. Qed.
 Print Assumptions C07_oracle_sound.
+
+(* validity is decided and evaluated: c07_validb (Model/C07Valid.v: alphabet, non-empty keys, revisions > 0, the relaxed
+   well-formedness decided on the dump, and for every variant without interleaved writers the read / round conditions)
+   implies c07_valid of the case restricted to those variants ... *)
+Theorem C07_validb_sound : forall c, c07_validb c = true -> c07_valid (c07_seq_part c).
+Proof. exact c07_validb_spec. Qed.
+Print Assumptions C07_validb_sound.
+
+(* every variant, with or without interleaved writers. For a variant with writers the hypotheses (variant_valid_w) are: the
+   writers' records are fresh (versions at (key, revision) slots nothing occupies, above R, one value per slot), the reads at
+   revisions >= R, and the DUMP AFTER THE PASS satisfies the relaxed well-formedness with everything below the round's
+   revisions - the model's writer commits are plain records; that they leave a well-formed store is what the write requests
+   establish (C07_write_keeps_wf) and is decided on the dump. Then: nothing outside the backend's charge loses its slot, the
+   reads equal those of the ghost store (C07_pass_all_ranges_writers), the round answers what the reads predict *)
+Theorem C07_oracle_sound_full : forall c, c07_valid_full c -> c07_check c = true -> c07_oracle c = None.
+Proof. exact c07_oracle_sound_full. Qed.
+Print Assumptions C07_oracle_sound_full.
+
+Theorem C07_validb_full_sound : forall c, c07_validb_full c = true -> c07_valid_full c.
+Proof. exact c07_validb_full_spec. Qed.
+Print Assumptions C07_validb_full_sound.
+
+(* ... and what the shards evaluate on every generated case, c07_check_v = c07_validb_full && c07_check, puts the case under
+   the theorem: nothing for the oracle to report, on any variant. A generated case that is not valid counts as a mismatch
+   of the run *)
+Theorem C07_oracle_sound_evaluated : forall c, c07_check_v c = true -> c07_oracle c = None.
+Proof. exact c07_oracle_sound_v. Qed.
+Print Assumptions C07_oracle_sound_evaluated.
 
 (* per clause, for every variant - writers interleaved or not *)
 Theorem C07_oracle_borders_clause : forall c,
@@ -359,7 +453,7 @@ Proof.
           intros r' v' H'. split_in; try discriminate; injection H' as <- _; lia.
         * intros Hn. left. intros r v H. split_in; injection H as <- _ _;
             first [solve [apply (Hn 103 true); cbn; auto 10]|solve [apply (Hn 105 false); cbn; auto 10]].
-    - constructor; [|constructor]. constructor; cbn [exVariant v7_oc v7_cur v7_req v7_cur2 v7_round v7_iterfail].
+    - constructor; [|constructor]. constructor; cbn [exVariant v7_oc v7_cur v7_req v7_cur2 v7_round].
       + eexists. reflexivity.
       + vm_compute. discriminate.
       + change (clamp 105 0 105) with 105. unfold exReads.
@@ -368,8 +462,98 @@ Proof.
       + split; [vm_compute; discriminate|]. unfold exW. split; intros k r x H; split_in; try discriminate;
           first [injection H as _ <- _|injection H as _ <-]; lia.
       + vm_compute. discriminate.
-      + repeat constructor; cbn; try discriminate; lia.
-      + reflexivity. }
+      + repeat constructor; cbn; try discriminate; lia. }
   assert (Hc : c07_check exCase = true) by (vm_compute; reflexivity).
   split; [exact Hv|]. split; [exact Hc|]. exact (c07_oracle_sound_seq exCase Hv Hc).
 Qed.
+
+(* C07_pass_retry on the example store: the step that would show ka's tombstone fails (the 4th), the worker has deleted the
+   index and version 101; its second run finishes the key; the result is that of one pass, and the variant with the failed
+   step satisfies C07_oracle_sound's hypotheses like any other *)
+Example C07_ex_pass_retry :
+  let d := compact_all_f 105 [([97], [99])] 4 (init_d exV []) in
+  map (fun s => (ds_kind s, ds_target s)) (rev (d_trace d)) =
+    [(KDelCur, RIdx ka 103 true); (KDel, RVer ka 101 [1]); (KDel, RVer ka 102 [2]); (KDel, RVer ka 103 tombstone); (KDel, RVer kb 104 [4])] /\
+  d_store d = d_store (compact_all 105 0 [([97], [99])] (init_d exV [])) /\
+  variant_valid P [] exW exReads (mkV7 105 105 [] 105 105 [] None ([], []) None [] ([], []) 3).
+Proof.
+  cbv zeta. split; [vm_compute; reflexivity|]. split; [vm_compute; reflexivity|].
+  constructor; cbn [v7_oc v7_cur v7_req v7_cur2 v7_round].
+  - exists []. reflexivity.
+  - vm_compute. discriminate.
+  - change (clamp 105 0 105) with 105. unfold exReads.
+    constructor; [left; reflexivity|]. constructor; [right; apply N.le_refl|].
+    constructor; [vm_compute; discriminate|]. constructor; [vm_compute; discriminate|constructor].
+  - split; [vm_compute; discriminate|]. unfold exW. split; intros k r x H; split_in; try discriminate;
+      first [injection H as _ <- _|injection H as _ <-]; lia.
+  - vm_compute. discriminate.
+  - constructor.
+Qed.
+
+Example C07_ex_validb : c07_validb exCase = true /\ c07_check_v exCase = true /\ c07_seq_part exCase = exCase.
+Proof. vm_compute. repeat split. Qed.
+
+(* C07_pass_all_ranges_writers on the example: ka is re-created at 106 just before the third delete, two ranges *)
+Example C07_ex_writers_hyps :
+  fresh_adds (flat_map fst exOc) exV /\ uniq_ver (exV ++ flat_map fst exOc) /\
+  (forall k r v, In (RVer k r v) (flat_map fst exOc) -> 105 < r) /\
+  let d := compact_all 105 0 [([97], [98]); ([98], [99])] (init_d exV exOc) in
+  get_at (d_store d) 106 ka = Some (106, [6]) /\ get_at (d_store d) 105 ka = None /\ get_at (d_store d) 105 kb = Some (105, [5]).
+Proof.
+  split; [|split; [|split]].
+  - cbn [exOc flat_map fst app fresh_adds env1]. unfold ka. repeat split; try discriminate; try lia.
+    intros v' H. apply in_app_iff in H as [H|[H|[]]]; [|discriminate].
+    apply filter_In in H as [H _]. unfold exV, ka, kb in H. split_in; discriminate.
+  - apply C07_ex_scan_ok.
+  - apply C07_ex_scan_ok.
+  - vm_compute. repeat split.
+Qed.
+
+(* a variant with a writer: ra re-created at 106 just before the pass's third delete (which fails), on exW *)
+Definition exVariantW : c07_variant :=
+  mkV7 105 105 [([], OOk); ([], OOk); ([RIdx ra 106 false; RVer ra 106 [6]], OFailOther)] 105 106 [KDelCur; KDel; KDel; KDel]
+       (Some (map (model_read (sort_by rec_ltb (apply_env [RIdx ra 106 false; RVer ra 106 [6]] exW)) 106) exReads))
+       ([0; 1; 5], [RIdx ra 106 false; RVer ra 106 [6]]) None [(WDelete rb 105, WOk)]
+       ([4], [RIdx rb 107 true; RVer rb 107 tombstone]) 0.
+Example C07_ex_writer_variant :
+  let c := mkC7 P [] (map (fun b => encode b 0) (compact_borders P [])) exW exReads (map (model_read exW max_rev) exReads) [exVariant; exVariantW] in
+  c07_validb_full c = true /\ c07_check_v c = true /\ c07_oracle c = None /\ seqb exVariantW = false.
+Proof. vm_compute. repeat split. Qed.
+
+(* hypotheses asked for by the audit *)
+Example C07_ex_premise_holds : premise 105 exV (RVer ka 101 [1]).
+Proof. apply C07_premiseb_sound. vm_compute. reflexivity. Qed.
+Example C07_ex_list_spec : list_spec exV [97] [99] 105 (list_at exV [97] [99] 105) /\ list_at exV [97] [99] 105 = [(kb, [5], 105)].
+Proof.
+  split; [|vm_compute; reflexivity]. apply C07_list_at_spec.
+  - repeat (constructor; [|repeat (constructor; try (vm_compute; reflexivity))]). constructor.
+  - apply C07_ex_wfd.
+Qed.
+Example C07_ex_writers_ghost :
+  let d := compact_all 105 0 [([97], [98]); ([98], [99])] (init_d exV exOc) in
+  d_oc d = [] /\ d_ghost d = apply_env (flat_map fst exOc) exV.
+Proof. vm_compute. split; reflexivity. Qed.
+
+(* more hypotheses inhabited: a sequential scan_ok; the premise and the index condition of C07_wf_step; the round clause on exV *)
+Example C07_ex_scan_ok_seq : scan_ok 105 exV exV (map (fun o => ([], o)) [OOk; OFailOther]).
+Proof.
+  split.
+  - apply C07_ex_scan_ok.
+  - intros y Hy _. exact Hy.
+  - intros k r v Hy _. exact Hy.
+  - cbn [map flat_map fst app]. rewrite app_nil_r. apply C07_ex_wfd.
+  - intros k r v Hy. destruct Hy.
+Qed.
+Example C07_ex_wf_step_hyps :
+  premise 105 exV (RIdx ka 103 true) /\ (forall k r d, RIdx ka 103 true = RIdx k r d -> d = true /\ In (RIdx ka 103 true) exV) /\
+  wfd (del_slot (RIdx ka 103 true) exV).
+Proof.
+  split; [exact I|]. split.
+  - intros k r d E. injection E as <- <- <-. split; [reflexivity|left; reflexivity].
+  - apply (C07_wf_step 105); [apply C07_ex_wfd|exact I|]. intros k r d E. injection E as <- <- <-. split; [reflexivity|left; reflexivity].
+Qed.
+Example C07_ex_round_clause :
+  let ops := [(WCreate ka [9], WOk); (WDelete kb 105, WOk)] in
+  model_round exV 106 ops <> None /\
+  round_ok 105 [RdGet ka 0; RdGet kb 0] (map (model_read exV 105) [RdGet ka 0; RdGet kb 0]) [] ops = true.
+Proof. vm_compute. split; [discriminate|reflexivity]. Qed.
